@@ -31,6 +31,9 @@ type c02Gen struct {
 	updates []interface{} // messages of the update envelopes, in order
 	kinds   []string      // types of all envelopes written for it
 	ended   bool
+	execs   int  // resolver entries of its runs
+	unsub   bool // the client asked to end it
+	lastExec, lastResult int // sequence numbers of its last resolver entry and its last successful run
 }
 
 // c02Split cuts the recording into subscription generations (Subscribe .. Unsubscribe), up to the
@@ -63,6 +66,20 @@ func c02Split(events []cnEvent) []*c02Gen {
 		case "result":
 			if g := cur[e.ID]; g != nil {
 				g.results = append(g.results, e.Data)
+				g.lastResult = e.Seq
+			}
+		case "exec":
+			if g := cur[e.ID]; g != nil {
+				g.execs++
+				g.lastExec = e.Seq
+			}
+		case "in":
+			if m, ok := e.Data.(map[string]interface{}); ok && m["type"] == "unsubscribe" {
+				if id, ok := m["id"].(string); ok {
+					if g := cur[id]; g != nil {
+						g.unsub = true
+					}
+				}
 			}
 		case "write":
 			m := e.Data.(map[string]interface{})
